@@ -124,7 +124,7 @@ func whoMayCall(c *Ctx, rule string, fns []*ssa.Function, m CallMatcher, what st
 // a list is built when the building loop was extracted into a helper.
 func resolveProducer(fn *ssa.Function, v ssa.Value) (*ssa.Function, ssa.Value) {
 	for depth := 0; depth < 2; depth++ {
-		vals, unk := Origins(v)
+		vals, unk := OriginsNoExpand(v)
 		if unk || len(vals) != 1 {
 			break
 		}
